@@ -943,3 +943,22 @@ def check_tets(w, raw, old_cells, new_cells, label, centre_of=None, positions=Tr
         ps.append(M.Problem("tiling", f"{label}: the total signed volume of the cells changes",
                             f"new cells {[M.fmt_face(c) for c in new_cells]} (a tetrahedron is inverted, counted twice or lost)"))
     return ps
+
+
+
+# ----------------------------------------------------------------------- generic families (msa/rules/generic.py)
+_run_specific = run
+
+
+def run(ctx):
+    _run_specific(ctx)
+    from ..rules import generic
+    generic.apply(ctx, "C13", stale_modules=())
+
+
+def _generic_rule_texts():
+    from ..rules import generic
+    return generic.rule_texts("C13", stale=False)
+
+
+RULES.update(_generic_rule_texts())
